@@ -65,3 +65,11 @@ Print Assumptions C16_packright_leftmost_at_zero.
 (* the hypotheses are satisfiable: Positioners.ex_layers_wf, ex_geom_ok (3 nodes, 2 layers) *)
 Example C16_hypotheses_satisfiable : layers_wf ex_g /\ geom_ok 5 ex_g.
 Proof. split; [exact ex_layers_wf | exact ex_geom_ok]. Qed.
+
+(* ---------- regenerated from the source on every run (translator): the positioning phase does not read node identifiers, as its
+   model, which contains none, assumes ---------- *)
+From Coq Require Import String.
+From Autog Require Facts FactsChecks.
+Theorem C16_code_reads_no_identifier : FactsChecks.id_reads_allowed_in "internal/phase4/"%string = true.
+Proof. vm_compute. reflexivity. Qed.
+Print Assumptions C16_code_reads_no_identifier.
